@@ -378,6 +378,34 @@ def workload(ctx, repo):
         for case in edge_year_dumps(rng):
             ctx.case = case
             run_case(ctx, repo, case)
+    # New Year and week-year boundaries of every century year (leap and
+    # common, every weekday they start on) and their neighbours: one hour
+    # either side of midnight, re-zoned across it
+    j = 0
+    years = sorted(set(
+        [c + k for c in range(1000, 3001, 100) for k in (-1, 0, 1)] +
+        [0, 1, -1, -100, -400, 400, 9998]))
+    for mode in R.MODES:
+        for y in years:
+            ws = R.week_start(mode, y + 1)
+            ny = R.days_before_year(mode, y + 1)
+            for rd in sorted({ws - 1, ws, ny - 1, ny}):
+                for rep in gen.REPS:
+                    j += 1
+                    if not ctx.mine(j):
+                        continue
+                    late = (rd in (ws - 1, ny - 1))
+                    kw = gen.date_kwargs(mode, rep, rd)
+                    kw.update({"hour_of_day": 23 if late else 0,
+                               "minute_of_hour": 30 if late else 15,
+                               "second_of_minute": 0})
+                    src = (0, 0) if late else (0, 30)
+                    kw.update(gen.zone_kwargs(src))
+                    case = {"op": "tz", "mode": mode, "p": kw,
+                            "dest": [1, 0] if late else [0, 0]}
+                    ctx.case = case
+                    ctx.ev("cases.century-boundaries")
+                    run_case(ctx, repo, case)
     # every ordered (source, destination) pair of a grid of offsets
     j = 0
     for src in gen.OFFSET_GRID:
